@@ -1771,6 +1771,30 @@ def k_curve(repo):
     out += translate_region(src, "crypto_kdf_derive_from_key", {}, consts, start="let mut ctx_padded", stop="let state =", lean_name="kdf_params",
                             params=[("subkey_id", "u64"), ("context", "bytes")], pre={}, rename={}, outputs=["ctx_padded", "salt"]) + "\n"
     out += "def KDF_BYTES_MIN : Nat := %d\ndef KDF_BYTES_MAX : Nat := %d\n\n" % (consts["CRYPTO_KDF_BLAKE2B_BYTES_MIN"], consts["CRYPTO_KDF_BLAKE2B_BYTES_MAX"])
+    # the arguments of the BLAKE2b initialisation: digest length expression, and which buffer goes where (key, salt, personal)
+    _, _, kbody = find_fn(src, "crypto_kdf_derive_from_key")
+    m = re.search(r"blake2b::State::init\s*\(", kbody)
+    if not m:
+        fail("crypto_kdf_derive_from_key: blake2b::State::init(…) not found")
+    pz = Parser(lex(kbody[m.end() - 1:]))
+    pz.expect("(")
+    ia = pz.args()
+    if len(ia) != 4:
+        fail("crypto_kdf_derive_from_key: State::init arity")
+    cxk = Ctx({}, consts)
+    cxk.types["subkey_len"] = "usize"
+    out += "def kdf_outlen (subkey_len : Nat) : Nat :=\n  %s\n\n" % ex(subst_call(ia[0], "subkey.len()", "subkey_len"), cxk, "u8")
+
+    def some_arg(e):
+        while e[0] == "paren":
+            e = e[1]
+        if e[0] == "call" and e[1] == ("var", "Some") and len(e[2]) == 1:
+            return norm_text(e[2][0])
+        return "?" + norm_text(e)
+    out += "def kdf_init_args : List String := [%s]\n\n" % ", ".join('"%s"' % some_arg(a) for a in ia[1:])
+    # … and the digest is written into the caller's subkey buffer
+    if not re.search(r"state\s*\.\s*finalize\s*\(\s*subkey\s*\)", kbody):
+        fail("crypto_kdf_derive_from_key: state.finalize(subkey) not found")
     return out + "end DryocVerif.Gen.Curve\n"
 
 
